@@ -13,14 +13,14 @@ use crate::irdump;
 use crate::rng::Rng;
 use crate::sigs;
 use crate::util::{catch, CaseWriter, Json};
-use gimli::write::{self, Address, AttributeValue, DwarfUnit, EndianVec, LineProgram, LineString, Sections};
+use gimli::write::{self, Address, AttributeValue, EndianVec, LineProgram, LineString, Sections};
 use gimli::{Encoding, Format, LineEncoding, LittleEndian};
 use walrus::*;
 use wasmparser::{Parser, Payload};
 
 const MARKER: i32 = 24301;
 #[derive(Clone, Copy, Debug)]
-pub struct DCfg { pub version: u16, pub one_seq: bool, pub file0: bool, pub pair_seq: bool }
+pub struct DCfg { pub version: u16, pub one_seq: bool, pub file0: bool, pub pair_seq: bool, pub nested: bool, pub two_units: bool }
 
 fn n_imp_funcs(a: &AMod) -> usize { a.imports.iter().filter(|i| matches!(i.2, AImportKind::Func(_))).count() }
 fn line_of(fi: usize, k: usize) -> u64 { (fi * 100000 + k + 1) as u64 }
@@ -29,34 +29,48 @@ fn line_of(fi: usize, k: usize) -> u64 { (fi * 100000 + k + 1) as u64 }
 pub fn synthesize(wasm: &[u8], a: &AMod, c: DCfg) -> Option<Vec<u8>> {
     let cs = a.code_section?.0 as u64; if a.code.is_empty() { return None; }
     let encoding = Encoding { format: Format::Dwarf32, version: c.version, address_size: 4 };
-    let mut dwarf = DwarfUnit::new(encoding);
-    let comp_dir = LineString::String(b"/dir".to_vec()); let comp_name = LineString::String(b"main.c".to_vec());
-    let mut program = LineProgram::new(encoding, LineEncoding::default(), comp_dir, comp_name.clone(), None);
-    let dir = program.default_directory();
-    let file = program.add_file(LineString::String(b"other.c".to_vec()), dir, None);
+    let mut dwarf = write::Dwarf::new();
     let rel = |x: usize| x as u64 - cs;
-    let mut emit_rows = |program: &mut LineProgram, fi: usize, f: &ABody, base: u64| { for (k, o) in f.ops.iter().enumerate() { let r = program.row(); r.address_offset = rel(o.1) - base; r.file = file; r.line = line_of(fi, k); program.generate_row(); } };
-    if c.one_seq {
-        let base = rel(a.code[0].range.0);
-        program.begin_sequence(Some(Address::Constant(base)));
-        for (fi, f) in a.code.iter().enumerate() { emit_rows(&mut program, fi, f, base); }
-        program.end_sequence(rel(a.code.last().unwrap().range.1) - base);
-    } else if c.pair_seq {
-        // one sequence per two consecutive functions
-        let mut fi = 0; while fi < a.code.len() { let hi = (fi + 2).min(a.code.len()); let base = rel(a.code[fi].range.0); program.begin_sequence(Some(Address::Constant(base)));
-            for j in fi..hi { emit_rows(&mut program, j, &a.code[j], base); } program.end_sequence(rel(a.code[hi - 1].range.1) - base); fi = hi; }
-    } else {
-        for (fi, f) in a.code.iter().enumerate() { let base = rel(f.range.0); program.begin_sequence(Some(Address::Constant(base))); emit_rows(&mut program, fi, f, base); program.end_sequence(rel(f.range.1) - base); }
-    }
-    dwarf.unit.line_program = program;
-    let root = dwarf.unit.root();
-    dwarf.unit.get_mut(root).set(gimli::DW_AT_name, AttributeValue::String(b"main.c".to_vec()));
-    dwarf.unit.get_mut(root).set(gimli::DW_AT_low_pc, AttributeValue::Address(Address::Constant(0)));
-    for (fi, f) in a.code.iter().enumerate() {
-        let id = dwarf.unit.add(root, gimli::DW_TAG_subprogram); let lo = rel(f.range.0); let e = dwarf.unit.get_mut(id);
-        e.set(gimli::DW_AT_name, AttributeValue::String(format!("f{}", fi).into_bytes()));
-        e.set(gimli::DW_AT_low_pc, AttributeValue::Address(Address::Constant(lo)));
-        e.set(gimli::DW_AT_high_pc, AttributeValue::Udata(rel(f.range.1) - lo));
+    // the functions of each unit (two units: first half / second half)
+    let n = a.code.len(); let groups: Vec<(usize, usize)> = if c.two_units && n >= 2 { vec![(0, n / 2), (n / 2, n)] } else { vec![(0, n)] };
+    for (ui, (glo, ghi)) in groups.iter().enumerate() {
+        let comp_dir = LineString::String(b"/dir".to_vec()); let comp_name = LineString::String(format!("main{}.c", ui).into_bytes());
+        let mut program = LineProgram::new(encoding, LineEncoding::default(), comp_dir, comp_name.clone(), None);
+        let dir = program.default_directory();
+        let file = program.add_file(LineString::String(b"other.c".to_vec()), dir, None);
+        let mut emit_rows = |program: &mut LineProgram, fi: usize, f: &ABody, base: u64| { for (k, o) in f.ops.iter().enumerate() { let r = program.row(); r.address_offset = rel(o.1) - base; r.file = file; r.line = line_of(fi, k); program.generate_row(); } };
+        if c.one_seq {
+            let base = rel(a.code[*glo].range.0);
+            program.begin_sequence(Some(Address::Constant(base)));
+            for fi in *glo..*ghi { emit_rows(&mut program, fi, &a.code[fi], base); }
+            program.end_sequence(rel(a.code[*ghi - 1].range.1) - base);
+        } else if c.pair_seq {
+            // one sequence per two consecutive functions
+            let mut fi = *glo; while fi < *ghi { let hi = (fi + 2).min(*ghi); let base = rel(a.code[fi].range.0); program.begin_sequence(Some(Address::Constant(base)));
+                for j in fi..hi { emit_rows(&mut program, j, &a.code[j], base); } program.end_sequence(rel(a.code[hi - 1].range.1) - base); fi = hi; }
+        } else {
+            for fi in *glo..*ghi { let f = &a.code[fi]; let base = rel(f.range.0); program.begin_sequence(Some(Address::Constant(base))); emit_rows(&mut program, fi, f, base); program.end_sequence(rel(f.range.1) - base); }
+        }
+        let uid = dwarf.units.add(write::Unit::new(encoding, program));
+        let unit = dwarf.units.get_mut(uid);
+        let root = unit.root();
+        unit.get_mut(root).set(gimli::DW_AT_name, AttributeValue::String(format!("main{}.c", ui).into_bytes()));
+        unit.get_mut(root).set(gimli::DW_AT_low_pc, AttributeValue::Address(Address::Constant(0)));
+        for fi in *glo..*ghi { let f = &a.code[fi];
+            let id = unit.add(root, gimli::DW_TAG_subprogram); let lo = rel(f.range.0); let e = unit.get_mut(id);
+            e.set(gimli::DW_AT_name, AttributeValue::String(format!("f{}", fi).into_bytes()));
+            e.set(gimli::DW_AT_low_pc, AttributeValue::Address(Address::Constant(lo)));
+            e.set(gimli::DW_AT_high_pc, AttributeValue::Udata(rel(f.range.1) - lo));
+            // nested scopes: a lexical block from instruction k1 up to instruction k2 with a variable inside, and an inner block
+            if c.nested && f.ops.len() >= 3 { let (k1, k2) = (f.ops.len() / 3, f.ops.len() - 1);
+                let bid = unit.add(id, gimli::DW_TAG_lexical_block); let b = unit.get_mut(bid); let blo = rel(f.ops[k1].1);
+                b.set(gimli::DW_AT_name, AttributeValue::String(format!("b{}", fi).into_bytes()));
+                b.set(gimli::DW_AT_low_pc, AttributeValue::Address(Address::Constant(blo))); b.set(gimli::DW_AT_high_pc, AttributeValue::Udata(rel(f.ops[k2].1) - blo));
+                let vid = unit.add(bid, gimli::DW_TAG_variable); unit.get_mut(vid).set(gimli::DW_AT_name, AttributeValue::String(format!("v{}", fi).into_bytes()));
+                if k1 + 1 < k2 { let iid = unit.add(bid, gimli::DW_TAG_lexical_block); let ib = unit.get_mut(iid); let ilo = rel(f.ops[k1 + 1].1);
+                    ib.set(gimli::DW_AT_name, AttributeValue::String(format!("i{}", fi).into_bytes()));
+                    ib.set(gimli::DW_AT_low_pc, AttributeValue::Address(Address::Constant(ilo))); ib.set(gimli::DW_AT_high_pc, AttributeValue::Udata(rel(f.ops[k2].1) - ilo)); }
+                let pid = unit.add(id, gimli::DW_TAG_formal_parameter); unit.get_mut(pid).set(gimli::DW_AT_name, AttributeValue::String(format!("p{}", fi).into_bytes())); } }
     }
     let mut sections = Sections::new(EndianVec::new(LittleEndian));
     dwarf.write(&mut sections).ok()?;
@@ -105,7 +119,7 @@ pub fn read_dwarf(b: &[u8]) -> Option<DRead> {
         let unit = dwarf.unit(h).ok()?;
         if let Some(lp) = unit.line_program.clone() { let mut r = lp.rows(); while let Some((_, row)) = r.next_row().ok()? { rows.push((row.address(), row.line().map(|l| l.get()).unwrap_or(0), row.end_sequence())); } }
         let mut es = unit.entries();
-        while let Some((_, e)) = es.next_dfs().ok()? { if e.tag() == gimli::DW_TAG_subprogram {
+        while let Some((_, e)) = es.next_dfs().ok()? { if e.tag() == gimli::DW_TAG_subprogram || e.tag() == gimli::DW_TAG_lexical_block {
             let name = match e.attr_value(gimli::DW_AT_name).ok()? { Some(gimli::AttributeValue::String(s)) => String::from_utf8_lossy(s.slice()).to_string(), _ => "?".into() };
             let lo = match e.attr_value(gimli::DW_AT_low_pc).ok()? { Some(gimli::AttributeValue::Addr(a)) => a, _ => u64::MAX };
             let hi = match e.attr_value(gimli::DW_AT_high_pc).ok()? { Some(gimli::AttributeValue::Udata(a)) => a, _ => u64::MAX };
@@ -195,17 +209,17 @@ pub fn main(args: &[String]) {
     let gcfg = GenCfg { profile: Profile::Full, max_funcs: 4, max_depth: 3, seq_len: 6, names: false, customs: false, start: false, active_segments: true };
     let mut k = 0; while k < n_gen { let (wasm, _) = gen::module(&mut r, &tab, &gcfg); if amod::validate(&wasm, feats).is_err() { continue; } inputs.push((format!("gen{}", k), wasm)); k += 1; }
     let (mut n_cases, mut n_rows, mut n_subs, mut n_panics) = (0u64, 0u64, 0u64, 0u64); let mut cfg_hist: std::collections::BTreeMap<String, u64> = Default::default();
-    let dcfgs = [DCfg { version: 4, one_seq: false, file0: false, pair_seq: false }, DCfg { version: 5, one_seq: false, file0: false, pair_seq: false }, DCfg { version: 4, one_seq: true, file0: false, pair_seq: false }, DCfg { version: 5, one_seq: false, file0: true, pair_seq: false }, DCfg { version: 5, one_seq: true, file0: false, pair_seq: false }, DCfg { version: 4, one_seq: false, file0: false, pair_seq: true }];
+    let dcfgs = [DCfg { version: 4, one_seq: false, file0: false, pair_seq: false, nested: false, two_units: false }, DCfg { version: 5, one_seq: false, file0: false, pair_seq: false, nested: false, two_units: false }, DCfg { version: 4, one_seq: true, file0: false, pair_seq: false, nested: false, two_units: false }, DCfg { version: 5, one_seq: false, file0: true, pair_seq: false, nested: false, two_units: false }, DCfg { version: 5, one_seq: true, file0: false, pair_seq: false, nested: false, two_units: false }, DCfg { version: 4, one_seq: false, file0: false, pair_seq: true, nested: false, two_units: false }, DCfg { version: 4, one_seq: false, file0: false, pair_seq: false, nested: true, two_units: false }, DCfg { version: 5, one_seq: false, file0: false, pair_seq: false, nested: true, two_units: true }];
     for (idx, (name, wasm)) in inputs.iter().enumerate() {
         let a0 = match amod::decode(wasm) { Ok(a) => a, Err(_) => continue };
         for (ci, dc) in dcfgs.iter().enumerate() {
-            if idx >= n_fixed && (idx + ci) % 3 != 0 { continue; }   // generated modules rotate through the configurations
-            if idx >= n_fixed_before_boundary && idx < n_fixed && ci != 0 && ci != 2 && ci != 5 { continue; }   // size-boundary modules: v4 per function and v4 one sequence   // generated modules rotate through the configurations
+            if idx >= n_fixed && (idx + ci) % 4 != 0 { continue; }   // generated modules rotate through the configurations
+            if idx >= n_fixed_before_boundary && idx < n_fixed && ci != 0 && ci != 2 && ci != 5 && ci != 6 { continue; }   // size-boundary modules: v4 per function and v4 one sequence   // generated modules rotate through the configurations
             let input = match synthesize(wasm, &a0, *dc) { Some(x) => x, None => continue };
             let ain = amod::decode(&input).unwrap(); let din = match read_dwarf(&input) { Some(d) => d, None => continue };
             for variant in [0u8, 1, 2] {
-                let vname = format!("{} [dwarf v{}{}{}]{}", name, dc.version, if dc.one_seq { ", one sequence over all functions" } else if dc.pair_seq { ", one sequence per two functions" } else { "" }, if dc.file0 { ", rows name file 0" } else { "" }, ["", " (after gc)", " (markers inserted)"][variant as usize]);
-                *cfg_hist.entry(format!("v{}{}{}/{}", dc.version, if dc.one_seq { "+oneseq" } else if dc.pair_seq { "+pairseq" } else { "" }, if dc.file0 { "+file0" } else { "" }, variant)).or_default() += 1;
+                let vname = format!("{} [dwarf v{}{}{}]{}", name, dc.version, if dc.one_seq { ", one sequence over all functions" } else if dc.pair_seq { ", one sequence per two functions" } else if dc.two_units { ", two units, nested scopes" } else if dc.nested { ", nested scopes" } else { "" }, if dc.file0 { ", rows name file 0" } else { "" }, ["", " (after gc)", " (markers inserted)"][variant as usize]);
+                *cfg_hist.entry(format!("v{}{}{}/{}", dc.version, if dc.one_seq { "+oneseq" } else if dc.pair_seq { "+pairseq" } else if dc.two_units { "+nested+2units" } else if dc.nested { "+nested" } else { "" }, if dc.file0 { "+file0" } else { "" }, variant)).or_default() += 1;
                 let mk = |class: &str, what: String| Json::obj(vec![("class", Json::s(class)), ("props", Json::s("C10")), ("what", Json::s(format!("{}: {}", vname, what))), ("input", Json::s(crate::c03::hex(&input)))]);
                 let sd = r.below(1 << 30);
                 let run = match catch(|| run_walrus(&input, variant, sd, &ain)) { Some(Ok(x)) => x, Some(Err(e)) => { viol.push(mk("dwarf-parse-error", e)); continue; }
@@ -256,13 +270,23 @@ pub fn main(args: &[String]) {
                         (None, Some((_, lo, hi))) => { if *lo != 0xFFFF_FFFF && *lo != 0 && out_starts.iter().any(|s| *s >= *lo && *s < lo + hi) { note("subprogram-range-wrong", i, format!("subprogram {} of a removed function covers live code [{}, +{})", nm, lo, hi)); } }
                         (Some(_), None) => note("subprogram-range-wrong", i, format!("subprogram {} disappeared", nm)),
                         (None, None) => {} } }
+                // nested scopes: a block whose two boundary instructions survive covers exactly the code between them; DIEs keep their document order
+                if dc.nested {
+                    if din.subs.iter().map(|s| &s.0).collect::<Vec<_>>() != dout.subs.iter().map(|s| &s.0).collect::<Vec<_>>() { note("die-order-changed", 0, format!("the DIEs with address ranges are {:?} in the input and {:?} in the output", din.subs.iter().map(|s| &s.0).collect::<Vec<_>>(), dout.subs.iter().map(|s| &s.0).collect::<Vec<_>>())); }
+                    for (i, fa) in ain.code.iter().enumerate() { if fa.ops.len() < 3 { continue; } let (k1, k2) = (fa.ops.len() / 3, fa.ops.len() - 1);
+                        for (nm, ka) in [(format!("b{}", i), k1), (format!("i{}", i), k1 + 1)] { if ka >= k2 { continue; }
+                            if let (Some(wa), Some(wb), Some((_, lo, hi))) = (expect.get(&line_of(i, ka)), expect.get(&line_of(i, k2)), dout.subs.iter().find(|s| s.0 == nm)) {
+                                if (*lo, *hi) != (*wa, wb.wrapping_sub(*wa)) { note("scope-range-wrong", i, format!("lexical block {} covers [{}, +{}) but its first instruction is emitted at {} and its end instruction at {}", nm, lo, hi, wa, wb)); } } } }
+                }
                 for (class, (n, first)) in by_class { viol.push(mk(&class, format!("{} wrong, first: {}", n, first))); }
                 // ---- Coq case: classifier tables + probes (only for small modules)
                 if run.probes.len() < 900 && run.tables.len() < 20000 { w.push(&format!("Build_dcase {} [{}]", run.tables, run.probes.join("; "))); }
                 // ---- Coq case: the line program (input instruction stream, tables of this emission, rows read back)
                 if run.tables.len() < 20000 && dout.rows.len() < 700 { if let Some(ls) = line_stream(&input) {
                     let rows = dout.rows.iter().map(|(a, l, e)| format!("({}, {}, {})", a, if *e { 0 } else { *l }, e)).collect::<Vec<_>>().join("; ");
-                    wl.push(&format!("Build_lcase {} {} {} [{}]", run.tables, run.start, ls, rows)); } }
+                    // subprogram DIEs in document order: input (low_pc, high_pc) and what the output says
+                    let subs = if din.subs.len() == dout.subs.len() && din.subs.iter().zip(&dout.subs).all(|(a, b)| a.0 == b.0) { din.subs.iter().zip(&dout.subs).map(|(a, b)| format!("(({}, {}), ({}, {}))", a.1, a.2, b.1, b.2)).collect::<Vec<_>>().join("; ") } else { "((0, 0), (1, 1))".to_string() };
+                    wl.push(&format!("Build_lcase {} {} {} [{}] [{}]", run.tables, run.start, ls, rows, subs)); } }
             }
         }
     }
